@@ -106,7 +106,7 @@ def tree_hash(repo=None):
     return h.hexdigest()[:24]
 
 
-def extract(config, release=False, repo=None, quiet=True):
+def extract(config, release=False, repo=None, quiet=True, _retry=0):
     """Return (facts_dict, meta).  Raises ExtractError if the configuration does not build."""
     repo = repo or REPO
     feats = CONFIGS[config]
@@ -153,9 +153,15 @@ def extract(config, release=False, repo=None, quiet=True):
             if not os.path.exists(tmp):
                 raise ExtractError(config, "fact file missing after cargo check (wrapper skipped?)", r.stdout + r.stderr)
             os.rename(tmp, fpath)
-            _prune(fdir, keep=40)
-    with open(fpath) as f:
-        facts = json.load(f)
+            _prune(fdir, keep=120)
+    try:
+        with open(fpath) as f:
+            facts = json.load(f)
+    except FileNotFoundError:
+        # another process pruned the cache between our existence check and the read: extract again
+        if _retry < 3:
+            return extract(config, release=release, repo=repo, quiet=quiet, _retry=_retry + 1)
+        raise
     meta["wall_s"] = round(time.time() - t0, 2)
     meta["fns"] = len(facts["fns"])
     meta["adts"] = len(facts["adts"])
